@@ -135,9 +135,10 @@ fn args(rng: &mut Rng, xs: &[&str]) -> String {
     s
 }
 
-const NAMES: [&str; 16] = ["p", "q", "r", "s", "t", "u", "m", "n", "P0", "Q1", "a1", "b2", "xx", "yy", "k9", "z"];
-const CNAMES: [&str; 5] = ["c", "d", "c2", "K", "w"];
-const ANAMES: [&str; 5] = ["e", "f", "g2", "H", "j"];
+// (labels that differ only in letter case, or that extend one another, are distinct labels)
+const NAMES: [&str; 16] = ["p", "q", "r", "P", "Q", "u", "m", "p0", "P0", "Q1", "a1", "b2", "xx", "xX", "k9", "z"];
+const CNAMES: [&str; 5] = ["c", "C", "c2", "K", "w"];
+const ANAMES: [&str; 5] = ["e", "E", "g2", "H", "e2"];
 
 /// A valid problem: 0..6 points, 0..3 circles, 0..3 arcs, 1..20 instructions.
 pub fn gen_valid(rng: &mut Rng) -> GenProblem {
